@@ -53,6 +53,9 @@ def clean_start():
         if G.diff_full() is not None:
             return False
         _CHEAP0 = c
+        global _PRISTINE
+        if _PRISTINE is None and not _os.environ.get('VERIF_NO_PRISTINE'):
+            _PRISTINE = Pristine()       # forked now, before this process has executed a single event
         return True
     if c != _CHEAP0:
         return False
@@ -78,6 +81,96 @@ def force_clean():
         if glob.db_full([name])[name] != G.full_db0[name]:
             getattr(pt, name).reload_from_file(world.data_file(f))
     _CHEAP0 = None
+
+
+# ------------------------------------------------------------------------------------------ pristine oracle
+
+class Pristine:
+    """A process forked while this one was still in its import-time state.  For sampled calls it forks once more and
+    evaluates the same call on fresh twins there: "the first call on a fresh object" taken literally - no earlier call
+    of this run *or of any earlier run in this worker* has happened in that process.  This is what notices a
+    module-level cache keyed on too little, which a twin evaluated in the same process would hit as well."""
+
+    def __init__(self):
+        import multiprocessing
+        import os
+        self.conn, child = multiprocessing.Pipe()
+        self.pid = os.fork()
+        if self.pid == 0:
+            self.conn.close()
+            try:
+                self._serve(child)
+            finally:
+                os._exit(0)
+        child.close()
+
+    @staticmethod
+    def _serve(conn):
+        import os
+        import signal
+        signal.signal(signal.SIGALRM, signal.SIG_DFL)
+        signal.setitimer(signal.ITIMER_REAL, 0)
+        while True:
+            try:
+                req = conn.recv()
+            except (EOFError, OSError):
+                return
+            pid = os.fork()
+            if pid == 0:
+                try:
+                    signal.alarm(60)
+                    conn.send(_pristine_eval(req))
+                except BaseException as e:  # noqa
+                    try:
+                        conn.send(['harness', repr(e)])
+                    except Exception:
+                        pass
+                finally:
+                    os._exit(0)
+            os.waitpid(pid, 0)
+
+    def eval(self, req):
+        self.conn.send(req)
+        if not self.conn.poll(90):
+            raise HarnessError("pristine evaluation timed out")
+        return self.conn.recv()
+
+
+def _pristine_eval(req):
+    o = OPS[req['op']]
+    random.seed(req['rng'])
+    cache = {}
+    args = {}
+    for k, a in req['args'].items():
+        if 'h' in a:
+            if a['h'] not in cache:
+                cache[a['h']] = N.denorm(req['snaps'][a['h']])
+            args[k] = cache[a['h']]
+        elif 'v' in a:
+            args[k] = copy.deepcopy(a['v'])
+        elif 'nf' in a:
+            args[k] = N.denorm(a['nf'])
+        else:
+            return ['harness', 'unsupported arg']
+    ok_, r = _call(o, args)
+    if ok_ and o.lazy:
+        items = []
+        try:
+            for it in r:
+                items.append(N.norm(it))
+                if len(items) > 5000:
+                    break
+        except Exception as e:
+            items.append(N.norm_exc(e))
+        return ['ok', ['list', items]]
+    return ['ok', N.norm(r)] if ok_ else ['ok', N.norm_exc(r)]
+
+
+_PRISTINE = None
+
+
+def pristine():
+    return _PRISTINE
 
 
 # ------------------------------------------------------------------------------------------ plan generation
@@ -313,7 +406,8 @@ def _gen_pair_plan(S, index, header, opnames):
                     args[an] = {'h': 'A0'}
         rh = f'R{nres}'
         nres += 1
-        events.append({'act': 'call', 'client': c, 'op': name, 'args': args, 'out': rh, 'twin_first': S.coin(0.5)})
+        events.append({'act': 'call', 'client': c, 'op': name, 'args': args, 'out': rh, 'twin_first': S.coin(0.5),
+                       'pristine': c == 1 and not o.lazy and S.coin(0.06)})
         W['results'][rh] = name
         if o.lazy:
             events.append({'act': 'drain', 'client': c, 'lazy': rh})
@@ -379,7 +473,7 @@ def _gen_random_plan(S, header, tier):
             rh = f'R{nres}'
             nres += 1
             events.append({'act': 'call', 'client': client, 'op': name, 'args': args, 'out': rh,
-                           'twin_first': S.coin(0.5)})
+                           'twin_first': S.coin(0.5), 'pristine': not OPS[name].lazy and S.coin(0.05)})
             W['results'][rh] = name
             calls += 1
             if OPS[name].lazy:
@@ -719,6 +813,23 @@ def _do_call(run, ev_i, ev, touched):
                              f"HIST: {ev['op']} on the shared object after {ev_i} earlier events differs from the same "
                              f"call on a fresh twin: {d}", ev_i, None, {'shared': _clip(ns), 'fresh': _clip(nt)}):
                 return True
+    if ev.get('pristine') and _PRISTINE is not None and not o.rng \
+            and all(('h' in a or 'v' in a or 'nf' in a) for a in ev['args'].values()):
+        req = {'op': ev['op'], 'args': ev['args'], 'rng': 1234 + ev_i,
+               'snaps': {a['h']: snaps[a['h']] for a in ev['args'].values() if 'h' in a}}
+        ans = _PRISTINE.eval(req)
+        if ans[0] != 'ok':
+            raise HarnessError(f"pristine evaluation failed: {ans}")
+        out.oracle_checks += 1
+        out.probes['pristine_process_comparisons'] += 1
+        d = N.same(ns, ans[1], '')
+        if d is not None:
+            if run.violation('PRISTINE', ev['op'], _coarse(d),
+                             f"PRISTINE: {ev['op']} in this process (after {ev_i} earlier events of this run and the runs "
+                             f"before it in this worker) differs from the same call on fresh objects in a process that "
+                             f"has executed nothing since import: {d}", ev_i, None,
+                             {'here': _clip(ns), 'pristine': _clip(ans[1])}):
+                return True
     run.results[ev['out']] = {'val': s_res if s_ok else None, 'ev': ev, 'op': ev['op']}
     run.calls_since += 1
     return False
@@ -905,7 +1016,7 @@ RULE = ("run index i < 108*108*5: systematic family - ordered pair (op_a, op_b) 
         "name); non-trivial = some shared pool object was passed to at least two calls and at least one oracle "
         "comparison ran.")
 EXPECTED_PROBES = ['twin_first', 'call_raised', 'lazy_stepped_across_a_call', 'abandoned_after_first_item',
-                   'explicit_editor_event']
+                   'explicit_editor_event', 'pristine_process_comparisons']
 FAMILY_STARTS = [0, 108 * 108 * 5, 108 * 108 * 5 + 108 * 5 * 3]
 ASSUMPTIONS = [
     "field accessors (properties, has_*, get_internal_mods_by_index) and Fragment.parent_sequence are references into "
